@@ -85,7 +85,8 @@ Init ==
 (***************************************************************************)
 (* One call Do(in.off, in.w) after the clock advanced by in.adv (or an era *)
 (* if in.sat) and, if in.bump, the clock epoch was bumped externally at    *)
-(* the new reading.  raw is the symbolic proportional term.                *)
+(* the new reading.  raw is the symbolic proportional term.  The panics on  *)
+(* mdt < 0 / dt < 0 cannot happen: readings are non-decreasing.            *)
 (***************************************************************************)
 Do(in, raw) ==
   LET now1    == TAdd(now, in.adv, in.sat)
@@ -102,7 +103,10 @@ Do(in, raw) ==
       stepx   == IF StepUsesDoubleInv THEN Inv(offset) ELSE in.off
       \* case 2: awaiting PLL
       fire2   == m = 2 /\ mdt > 6 * U
-      \* case 3: tracking
+      \* case 3: tracking.  The gains (a, b) are picked by weight class (< 50,
+      \* < 150, otherwise the stiffening l.a, l.b once mdt > 300 s); they only
+      \* enter the symbolic term raw = a * offset and the integrator.
+      \* d = math.Ceil(dt); p clamped to +-d * 500e-6
       d       == IF m = 3 THEN CeilSecs(dt) ELSE 0
       p       == IF m = 3 THEN Clamp(raw, PB * d) ELSE 0
       m2      == IF m = 0 \/ fire1 \/ fire2 THEN m + 1 ELSE m
